@@ -1705,7 +1705,13 @@ def run_program(threads, schedule=(), *, max_steps=20000, wall_timeout=20.0, opc
         if first is not None:
             first.gate.release()
         if not h.done_lock.acquire(timeout=0.25 if stall_timeout is not None else wall_timeout):
-            _watch(h, wall_timeout, stall_timeout)
+            # Wall-clock backstops are scaled by machine load: on an oversubscribed machine (load >> cores) the OS may
+            # simply not run the controlled thread for seconds, which is not a stall of the program under test.
+            try:
+                _f = max(1.0, 2.0 * os.getloadavg()[0] / (os.cpu_count() or 1))
+            except OSError:
+                _f = 1.0
+            _watch(h, wall_timeout * _f, None if stall_timeout is None else stall_timeout * _f)
         h.aborting = True
         stuck = _unwind(h, 5.0)
         if stuck:
